@@ -104,6 +104,7 @@ type Monitor struct {
 	relayWriteErr    map[string]bool
 	ctlEnded         map[string]int64 // client -> time its TCP control connection ended (server view)
 	orphanDeletes    map[string][]int64 // allocation-deleted events seen before the Allocate response
+	leakReported     map[string]bool
 	InboundMTU       int
 }
 
@@ -123,7 +124,7 @@ func NewMonitor(k *Kernel, n *Net, p *Plan) *Monitor {
 	m := &Monitor{K: k, Net: n, P: p, M: NewModel(perm, ch, life), users: map[string]string{}, denyPeer: map[string]bool{},
 		denyClient: map[string]bool{}, nonces: map[string]*nonceInfo{}, intents: map[string]*Intent{}, reqs: map[string][]*mReq{},
 		evCount: map[string]int{}, states: map[string]struct{}{}, srvWriteFailed: map[string]bool{}, MustMax: 1400,
-		tcpCtl: map[*TCPConn]*ctlStream{}, relayErr: map[string]int64{}, relayWriteErr: map[string]bool{}, orphanDeletes: map[string][]int64{}, ctlEnded: map[string]int64{}}
+		tcpCtl: map[*TCPConn]*ctlStream{}, relayErr: map[string]int64{}, relayWriteErr: map[string]bool{}, orphanDeletes: map[string][]int64{}, leakReported: map[string]bool{}, ctlEnded: map[string]int64{}}
 	m.InboundMTU = p.Cfg.InboundMTU
 	if m.InboundMTU == 0 {
 		m.InboundMTU = 1600
@@ -844,6 +845,9 @@ func (m *Monitor) allocsByRelay(relayKey string, t1, t2 int64) []*mAlloc {
 
 func (m *Monitor) relayWrite(relayKey, to string, payload []byte, now int64) {
 	m.K.Logf("relayout %s>%s len=%d", m.Net.names[relayKey], to, len(payload))
+	if m.serverClosed {
+		return // handlers that were in flight when the server was closed are not judged
+	}
 	dst := mustUDPAddr(to)
 	// candidates: submissions not yet matched
 	// newest first, and submissions not yet judged before those already judged at an idle point
@@ -986,6 +990,9 @@ func lenClass(n int) string {
 
 func (m *Monitor) forward(to string, isChan bool, num uint16, peer string, payload []byte, now int64) {
 	m.K.Logf("fwd %s chan=%v len=%d", m.Net.names[to], isChan, len(payload))
+	if m.serverClosed {
+		return
+	}
 	allocs := m.M.Current(to, 0, now)
 	var cands []*mInb
 	for pass := 0; pass < 2; pass++ {
@@ -1321,8 +1328,64 @@ func (m *Monitor) Idle(now int64, allocCount int, lossFree bool) {
 			m.v([]string{"C06", "C15", "C04"}, "alive-after-deadline", kv("probe", "count"), "server reports %d allocations, at most %d can be alive", allocCount, hi)
 		}
 	}
+	m.registry(now)
 	st := m.M.Snapshot(now)
 	m.states[st] = struct{}{}
+}
+
+// registry (C15): at an idle point the open relay sockets/listeners are exactly those of the
+// allocations that may be alive, and every allocation that must be alive has its relay open.
+func (m *Monitor) registry(now int64) {
+	if m.serverClosed {
+		return
+	}
+	m.Net.mu.Lock()
+	var open []*SockInfo
+	for _, s := range m.Net.Socks {
+		if s.Open && s.Role == "relay" {
+			open = append(open, s)
+		}
+	}
+	m.Net.mu.Unlock()
+	for _, s := range open {
+		ok := false
+		for _, a := range m.M.ByRelay[s.Addr] {
+			if m.M.PossiblyAlive(a, now, now) {
+				ok = true
+			}
+		}
+		if !ok {
+			// an Allocate may be in flight (socket exists before the response is written)
+			for _, rs := range m.reqs {
+				for _, r := range rs {
+					if !r.Answered && r.Method == stun.MethodAllocate {
+						ok = true
+					}
+				}
+			}
+		}
+		if !ok && !m.leakReported[s.Addr] {
+			m.leakReported[s.Addr] = true
+			m.v([]string{"C15"}, "leak", kv("kind", "relay-"+s.Kind), "relay %s %s (opened at %d ns) is open at an idle point but no allocation that can be alive owns it", s.Kind, s.Addr, s.OpenedAt)
+		}
+	}
+	for _, as := range m.M.Allocs {
+		for _, a := range as {
+			if !m.M.DefinitelyAlive(a, now, now) {
+				continue
+			}
+			found := false
+			for _, s := range open {
+				if s.Addr == a.RelayKey {
+					found = true
+				}
+			}
+			if !found && !m.leakReported["closed:"+a.RelayKey] {
+				m.leakReported["closed:"+a.RelayKey] = true
+				m.v([]string{"C15", "C06"}, "closed-while-alive", nil, "allocation of %s must be alive but its relay %s is not open", a.Client, a.RelayKey)
+			}
+		}
+	}
 }
 
 func (m *Monitor) chanLeft(a *mAlloc, n uint16, now int64) int64 {
@@ -1342,9 +1405,12 @@ func (m *Monitor) unanswered(r *mReq, now int64) {
 		if r.Auth < 0 && (r.AuthWhy == "no-integrity" || r.AuthWhy == "stale-nonce") && m.P.Cfg.Auth != "none" {
 			m.v([]string{"C03"}, "no-challenge", kv("method", methodName(r.Method), "why", r.AuthWhy), "%s without valid credentials (%s) got no challenge", methodName(r.Method), r.AuthWhy)
 		}
+		if _, ended := m.ctlEnded[r.Client]; ended {
+			return
+		}
 		if r.Auth > 0 {
 			_, def := m.ownerAllocs(r, I)
-			if r.Method == stun.MethodAllocate || (def != nil && def.User == r.User) {
+			if (r.Method == stun.MethodAllocate && len(m.K.StallIntervals()) == 0) || (r.Method != stun.MethodAllocate && def != nil && def.User == r.User) {
 				props := []string{"C06"}
 				if r.Method == stun.MethodAllocate {
 					props = []string{"C19", "C09"}
